@@ -401,6 +401,51 @@ func (c *pubOnly) Define(api frontend.API) error {
 	return nil
 }
 
+// two commitments that do not depend on each other; the first commits to more public wires than the last
+type cm2i struct {
+	X, W   frontend.Variable
+	P1, P2 frontend.Variable `gnark:",public"`
+}
+
+func (c *cm2i) Define(api frontend.API) error {
+	api.AssertIsEqual(api.Mul(c.X, c.X), c.P1)
+	a, err := api.(frontend.Committer).Commit(c.P1, c.P2, c.X)
+	if err != nil {
+		return err
+	}
+	b, err := api.(frontend.Committer).Commit(c.W)
+	if err != nil {
+		return err
+	}
+	api.AssertIsDifferent(a, b)
+	api.AssertIsDifferent(api.Mul(c.W, c.P2), 0)
+	return nil
+}
+
+// three commitments: secret only, public only, mixed (depending on the first)
+type cm3 struct {
+	X, W, V frontend.Variable
+	P1, P2  frontend.Variable `gnark:",public"`
+}
+
+func (c *cm3) Define(api frontend.API) error {
+	api.AssertIsEqual(api.Mul(c.X, c.X), c.P1)
+	a, err := api.(frontend.Committer).Commit(c.W, c.V)
+	if err != nil {
+		return err
+	}
+	b, err := api.(frontend.Committer).Commit(c.P1, c.P2)
+	if err != nil {
+		return err
+	}
+	d, err := api.(frontend.Committer).Commit(c.X, a, c.P2)
+	if err != nil {
+		return err
+	}
+	api.AssertIsDifferent(api.Add(a, b, d), c.V)
+	return nil
+}
+
 func g16Specs() []g16Spec {
 	return []g16Spec{
 		{"cubic", func() frontend.Circuit { return &cubic{} }, func(k int) frontend.Circuit {
@@ -412,6 +457,14 @@ func g16Specs() []g16Spec {
 		{"commit2", func() frontend.Circuit { return &cm2{} }, func(k int) frontend.Circuit {
 			x := int64(3 + k)
 			return &cm2{X: x, W: 5 + int64(k), Y: x * x, Z: 4 + int64(k)}
+		}},
+		{"commit2-independent", func() frontend.Circuit { return &cm2i{} }, func(k int) frontend.Circuit {
+			x := int64(3 + k)
+			return &cm2i{X: x, W: 5 + int64(k), P1: x * x, P2: 9 + int64(k)}
+		}},
+		{"commit3", func() frontend.Circuit { return &cm3{} }, func(k int) frontend.Circuit {
+			x := int64(2 + k)
+			return &cm3{X: x, W: 5 + int64(k), V: 11 + int64(k), P1: x * x, P2: 6 + int64(k)}
 		}},
 		{"public-only", func() frontend.Circuit { return &pubOnly{} }, func(k int) frontend.Circuit { y := int64(2 + k); return &pubOnly{Y: y, Z: y * y, S: 7} }},
 		{"hinty", func() frontend.Circuit { return &hintyCircuit{} }, func(k int) frontend.Circuit {
